@@ -79,6 +79,13 @@ LEVEL_TEXT = ("All projection matrices of every interface are checked per mortar
               "meshing and after each generated mortar/secondary/primary replacement.")
 TECHNIQUE = "runtime monitoring: per-side conservation / constant-preservation identities"
 TOL = 1e-10
+# after a replacement the maps are rebuilt by match_1d / match_2d, which by their documented
+# contract ignore overlaps with a measure below tol (replace_subdomains_and_interfaces
+# default 1e-6): each ignored sliver loses < 1e-6 of a weight, so totals / constants are
+# preserved only up to (number of cells) x 1e-6.  Observed on the unchanged tree: 1.5e-9
+# (gmsh node coordinates almost coinciding with the nodes of the replacement grid).
+# Realistic breaks (wrong scaling, swapped int/avg, dropped side) are O(1e-1).
+TOL_UPDATED = 1e-4
 TOL_ON = 1e-8
 # genuine defect (see final report): update_primary on an interface whose mortar grid no
 # longer matches the old primary grid counts every old face once per overlapping mortar
@@ -100,6 +107,7 @@ def _get(intf, who, direction, kind, nd=1):
 
 def _check_interface(mon, mdg, net, intf, rng, tol_on, tag, slack=0.0, pmech=None,
                      memory=None):
+    T = TOL if tag == "meshing" else TOL_UPDATED
     hi, lo = mdg.interface_to_subdomain_pair(intf)
     info = {"after": tag, "mortar_dim": int(intf.dim), "sides": int(intf.num_sides()),
             "hi": [hi.dim, int(getattr(hi, "frac_num", -1))],
@@ -224,22 +232,22 @@ def _check_interface(mon, mdg, net, intf, rng, tol_on, tag, slack=0.0, pmech=Non
 
         # extensive: totals are preserved
         q = rng.random(n_hi) + 0.5
-        ok = mon.close("total_primary_to_mortar", (p_int @ q).sum(), q[f_side].sum(), TOL,
+        ok = mon.close("total_primary_to_mortar", (p_int @ q).sum(), q[f_side].sum(), T,
                        pmech or "conservation:primary-to-mortar-int-does-not-preserve-the-total",
                        scale=max(1.0, q[f_side].sum()), detail=sinfo)
         ok &= mon.close("colsum_primary_to_mortar_int", p_int.sum(axis=0)[f_side],
-                        np.ones(int(f_side.sum())), TOL,
+                        np.ones(int(f_side.sum())), T,
                         pmech or "conservation:primary-to-mortar-int-column-sum-not-one", scale=1.0,
                         detail=sinfo)
         lam = rng.random(sg.num_cells) + 0.5
-        ok &= mon.close("total_mortar_to_secondary", (ms_int @ lam).sum(), lam.sum(), TOL,
+        ok &= mon.close("total_mortar_to_secondary", (ms_int @ lam).sum(), lam.sum(), T,
                         "conservation:mortar-to-secondary-int-does-not-preserve-the-total",
                         scale=lam.sum(), detail=sinfo)
-        ok &= mon.close("total_mortar_to_primary", (mp_int @ lam).sum(), lam.sum(), TOL,
+        ok &= mon.close("total_mortar_to_primary", (mp_int @ lam).sum(), lam.sum(), T,
                         pmech or "conservation:mortar-to-primary-int-does-not-preserve-the-total",
                         scale=lam.sum(), detail=sinfo)
         src = rng.random(n_lo) + 0.5
-        ok &= mon.close("total_secondary_to_mortar", (s_int @ src).sum(), src.sum(), TOL,
+        ok &= mon.close("total_secondary_to_mortar", (s_int @ src).sum(), src.sum(), T,
                         "conservation:secondary-to-mortar-int-does-not-preserve-the-total",
                         scale=src.sum(), detail=sinfo)
         if not ok:
@@ -247,16 +255,16 @@ def _check_interface(mon, mdg, net, intf, rng, tol_on, tag, slack=0.0, pmech=Non
 
         # intensive: the constant 1 is mapped to 1 on covered entities, 0 elsewhere
         one_hi, one_lo, one_m = np.ones(n_hi), np.ones(n_lo), np.ones(sg.num_cells)
-        ok = mon.close("const_primary_to_mortar", p_avg @ one_hi, one_m, TOL,
+        ok = mon.close("const_primary_to_mortar", p_avg @ one_hi, one_m, T,
                        pmech or "constants:primary-to-mortar-avg-does-not-map-1-to-1", scale=1.0,
                        detail=sinfo)
-        ok &= mon.close("const_secondary_to_mortar", s_avg @ one_lo, one_m, TOL,
+        ok &= mon.close("const_secondary_to_mortar", s_avg @ one_lo, one_m, T,
                         "constants:secondary-to-mortar-avg-does-not-map-1-to-1", scale=1.0,
                         detail=sinfo)
-        ok &= mon.close("const_mortar_to_secondary", ms_avg @ one_m, one_lo, TOL,
+        ok &= mon.close("const_mortar_to_secondary", ms_avg @ one_m, one_lo, T,
                         "constants:mortar-to-secondary-avg-does-not-map-1-to-1", scale=1.0,
                         detail=sinfo)
-        ok &= mon.close("const_mortar_to_primary", mp_avg @ one_m, f_side.astype(float), TOL,
+        ok &= mon.close("const_mortar_to_primary", mp_avg @ one_m, f_side.astype(float), T,
                         pmech or "constants:mortar-to-primary-avg-does-not-map-1-to-1-on-covered-faces",
                         scale=1.0, detail=sinfo)
         if not ok:
